@@ -7,7 +7,7 @@ import json, os, re
 import vcommon as V
 
 META = dict(
-    text="Lean 4 theorems (Props/C12.lean) prove for the models of the printer and of the reader: (1) read_print_data_partial, by structural induction over any nesting depth and length: for every value built from 64-bit integers, uint64, finite floats, characters, strings, booleans, symbols, lists (also with a dotted tail) and arrays, the printed text, delivered whole or in any pieces to a parser with any history, is accepted and yields exactly that value; it is assembled from string_literal_roundtrip / char_literal_roundtrip / escapes_inverse (what strconv.Quote and QuoteRune write for ANY rune - all 0x110000 code points through the regenerated IsPrint table - is read back as that rune by the lexer's escape table, including \\a \\b \\f \\v \\xHH \\uHHHH \\UHHHHHHHH), print_int_reads_back and print_uint_reads_back (every 64-bit numeral is a decimal/uint64 token converting back to the same number), print_float_reads_back (under an explicit law on FormatFloat/ParseFloat the printed float is one atom, a FLOAT token and never an integer token, and converts back with the same Scientific flag), the lexing of the whole text (every separator, bracket and the dotted-tail backslash), lazy = eager lexing for every parser program, and the parse of the token list with the model's fuel bound; (2) literal_digits_positional and literal_int_tokens: ParseInt/ParseUint as used by the parser compute the positional value of the digits in every base, so hex, octal, binary and decimal-with-underscores tokens denote exactly what is written or are refused when out of range. The models are tied to zygo/lexer.go, parser.go, expressions.go, hashutils.go by regenerated tables (regexp sources, DecodeAtom cascade order, escape table, hexEscapeLen, the strconv call of every literal token and of every printer method) and by the rt channel, which prints with the real code, reads back with the real parser and evaluates with the real interpreter: impl vs spec (the value itself; Spec.require for literal spellings, an independent positional/bisection specification checked against math/big) and impl vs model, over every code point of the first planes, every IsPrint transition, integer and float grids over all binades, every pair of atoms in every container, every spelling up to length 4 (thorough 5). Unit tests compare about sixty spellings and a handful of printed strings.",
+    text="Lean 4 theorems (Props/C12.lean) prove for the models of the printer and of the reader: (1) read_print_data_partial, by structural induction over any nesting depth and length: for every value built from 64-bit integers, uint64, finite floats, characters, strings, booleans, symbols, lists (also with a dotted tail) and arrays, the printed text, delivered whole or in any pieces to a parser with any history, is accepted and yields exactly that value; it is assembled from string_literal_roundtrip / char_literal_roundtrip / escapes_inverse (what strconv.Quote and QuoteRune write for ANY rune - all 0x110000 code points through the regenerated IsPrint table - is read back as that rune by the lexer's escape table, including \\a \\b \\f \\v \\xHH \\uHHHH \\UHHHHHHHH), print_int_reads_back and print_uint_reads_back (every 64-bit numeral is a decimal/uint64 token converting back to the same number), print_float_reads_back (under an explicit law on FormatFloat/ParseFloat the printed float is one atom, a FLOAT token and never an integer token, and converts back with the same Scientific flag), the lexing of the whole text (every separator, bracket and the dotted-tail backslash), lazy = eager lexing for every parser program, and the parse of the token list with the model's fuel bound; (2) literal_digits_positional and literal_int_tokens: ParseInt/ParseUint as used by the parser compute the positional value of the digits in every base, so hex, octal, binary and decimal-with-underscores tokens denote exactly what is written or are refused when out of range. The models are tied to zygo/lexer.go, parser.go, expressions.go, hashutils.go by regenerated tables (regexp sources, DecodeAtom cascade order, escape table, hexEscapeLen, the strconv call of every literal token and of every printer method) and by the rt channel, which prints with the real code, reads back with the real parser and evaluates with the real interpreter: impl vs spec (the value itself; Spec.require for literal spellings, an independent positional/bisection specification checked against math/big) and impl vs model, over every code point of the first planes, every IsPrint transition, integer and float grids over all binades, every pair of atoms in every container, every spelling up to length 4 (thorough 5). (3) History independence (Spec/LiteralHistory.lean: what a text denotes is a function of the text alone - in every history every text gets the answer a fresh reader gives it): proved for the reader model from every state and for every text (model_reader_history_independent), parser_state_inventory ties the state of the real Parser to the modelled one (regenerated field list), and the rt H ops run 2-6 spellings / print-read round trips on ONE long-lived reader (one Parser object; one interpreter through (read ...) and through evaluation), systematically pairing the spellings that share a digit string across notations (bases 2/8/10/16, ULL, signs, leading zeros, underscores, float spellings) in every order, each step judged by the specification independently of the steps before it. Unit tests compare about sixty spellings and a handful of printed strings, each on a fresh interpreter.",
     note="Trusted: Lean kernel; axioms propext/Classical.choice/Quot.sound; strconv.FormatFloat/ParseFloat enter as the hypothesis FloatLaw (shape of the text + parse-back), sampled over all binades on every run, not proved; ParseFloat's rounding is re-implemented (Model/NumLit) and compared bit for bit with strconv, math/big and Spec.nearestF64; regexp recognisers are hand-written for the regenerated source strings; the models are hand-written (Model/Lexer+Parser shared with C13, PrintData, EvalData) and tied by differential testing. Stated in full but NOT proved (compared on every generated input instead): ReadPrintData (fails today for nil: known finding), LiteralValue for every spelling (the cascade classification of arbitrary spellings, signs, fraction/exponent literals), EvalPrintJsonlike (hashes/arrays read back by evaluation). The symbol domain of the theorem is 'names DecodeAtom classifies as a symbol and that hold no rune special to the lexer' (symOK), not an independent grammar. Holds for the tree with fixes C12-01..05 and C13-02 applied; known finding: nil reads back as the symbol nil.",
     technique="Lean 4 proof over executable models of the printer, the lexer/parser and the literal conversion + regenerated tables + model/implementation/specification correspondence (channel rt) with math/big as second judge of literal values",
     design_ref="DESIGN.md §7 C12",
@@ -60,7 +60,10 @@ def run(rep):
     out = []
     unmodelled = 0
     verdicts = {"must": 0, "may": 0, "not-number": 0}
-    for op, impl, model, spec in rows:
+    hist_verdicts = {"must": 0, "may": 0, "not-number": 0}
+    hist_steps = {}
+    def proc(op, impl, model, spec):
+        nonlocal unmodelled
         kind = op.split(" ", 2)[1]
         if model == "unmodelled":
             # outside the rune-level model (a string that is not UTF-8): implementation only
@@ -76,9 +79,64 @@ def run(rep):
                 spec = impl if impl in ("err", "nonnum") else spec[1:]
             else:
                 verdicts["must"] += 1
+        elif kind == "H":
+            # a history on ONE long-lived reader: every step judged by the specification's answer to that step ALONE
+            # (Spec/LiteralHistory.lean: the value of a literal is a function of its spelling)
+            si, ss = impl.split(" | "), spec.split(" | ")
+            if len(si) == len(ss):
+                res = []
+                for a, sp in zip(si, ss):
+                    if sp == "!num":
+                        hist_verdicts["not-number"] += 1
+                        sp = a if a in ("err", "nonnum") else "not-a-number"
+                    elif sp.startswith("?"):
+                        hist_verdicts["may"] += 1
+                        sp = a if a in ("err", "nonnum") else sp[1:]
+                    else:
+                        hist_verdicts["must"] += 1
+                    res.append(sp)
+                spec = " | ".join(res)
+                hist_steps[len(si)] = hist_steps.get(len(si), 0) + 1
         elif kind == "r" and spec != "-" and impl != spec and _nil_as_symbol(spec) == impl:
             keys[op] = "rt r n"
-        out.append((op, impl, model, spec))
+        return (op, impl, model, spec)
+
+    out = [proc(*r) for r in rows]
+    # Every line is self-contained (a history is INSIDE an `H` line), but the batch process is a history of its own:
+    # state that outlives a reader (package level) makes a line's answer depend on earlier lines. Lines that disagree
+    # are re-run ALONE in a fresh process and the lone answer is judged, so that a replay is one line; how many
+    # answers changed is recorded, and if no line fails alone the batch dependence itself is reported.
+    badi = [i for i, (op, impl, model, spec) in enumerate(out)
+            if op not in keys and ((spec != "-" and impl != spec) or (spec == "-" and impl != model))]
+    def first_wrong_is_first_step(i):
+        a, b = out[i][1].split(" | "), out[i][3].split(" | ")
+        return 1 if (len(a) != len(b) or a[0] != b[0]) else 0
+    # candidates most likely to fail alone first: history lines whose FIRST step is right and a later one wrong
+    badi = [i for i in badi if not rep.match_known(out[i][0])]
+    badi.sort(key=lambda i: (0 if out[i][0].startswith("rt H ") else 1, first_wrong_is_first_step(i), len(out[i][0])))
+    confirmed, changed = 0, []
+    cand = badi[:400]
+    from concurrent.futures import ThreadPoolExecutor
+    with ThreadPoolExecutor(max_workers=6) as ex:      # only on a tree that disagrees; a green tree has no candidates
+        alone_ans = list(ex.map(lambda i: V.exec_impl(rows[i][0] + "\n")[0], cand))
+    for i, alone in zip(cand, alone_ans):
+        if alone != rows[i][1]:
+            changed.append((rows[i][0], rows[i][1], alone))
+        out[i] = proc(rows[i][0], alone, rows[i][2], rows[i][3])
+        op, impl, model, spec = out[i]
+        if (spec != "-" and impl != spec) or (spec == "-" and impl != model):
+            confirmed += 1
+    if confirmed:
+        # what still disagrees only inside the batch must not be reported as a one-line replay
+        for i in badi[400:]:
+            if rows[i][2] != "unmodelled":
+                out[i] = proc(rows[i][0], rows[i][2], rows[i][2], rows[i][3])   # judged as if it had answered like the model (its lone answer is unknown)
+    rep.coverage["rerun_alone"] = {"disagreeing_in_batch": len(badi), "confirmed_alone": confirmed, "answer_depends_on_earlier_lines": len(changed)}
+    if changed and not confirmed:
+        op, inbatch, alone = changed[0]
+        rep.violation("failing-input", {"channel": "rt", "ops": [op], "impl_did": inbatch, "impl_alone": alone,
+                      "why": "the answer to this line depends on lines run earlier in the same process (alone it is what the specification requires): what a text denotes is not a function of the text alone",
+                      "others_like_it": len(changed)}, key=op, no_input=True)
 
     def nontrivial(op, impl):
         return impl not in ("err", "bad-op", "none", "multi", "nonnum")
@@ -90,6 +148,8 @@ def run(rep):
         k = t[1]
         if k in ("l", "j"):
             return "literal-spelling"
+        if k == "H":
+            return "literal-history"
         if k == "k":
             return "literal-text"
         if k == "e":
@@ -116,6 +176,9 @@ def run(rep):
     rep.coverage["ops_by_kind"] = kinds
     rep.coverage["unmodelled_ops"] = unmodelled
     rep.coverage["literal_verdicts"] = verdicts
+    rep.coverage["history_ops"] = {"lines_by_number_of_steps": {str(k): v for k, v in sorted(hist_steps.items())}, "step_verdicts": hist_verdicts,
+                                   "rule": "rt H <mode> step…: 2-6 spellings / print-read round trips on ONE long-lived reader (p: one Parser object, r: (read \"…\") on one interpreter, "
+                                           "e: the literal evaluated on one interpreter); every step is judged by Spec.require / the printed number itself, independently of the steps before it"}
     rep.coverage["exhaustive"] = True
     rep.coverage["rule"] = ("p = printed text (impl vs model), r = read back (impl vs spec = the value itself, vs model), e = evaluated JSON-like value, "
                             "l = numeric spelling read (impl vs Spec.require vs model), j = Spec.mathValue/nearestF64 vs math/big+strconv, k = hand-written string/char literal texts. "
